@@ -1627,14 +1627,18 @@ class Torrent():
 
             # Extract 'pieces' from metainfo before decoding because it's the
             # only byte sequence that isn't supposed to be decoded to a string.
-            if (b'info' in metainfo_enc and
-                isinstance(metainfo_enc[b'info'], dict) and
-                b'pieces' in metainfo_enc[b'info']):
-                pieces = metainfo_enc[b'info'].pop(b'pieces')
-                metainfo = utils.decode_dict(metainfo_enc)
-                metainfo['info']['pieces'] = pieces
-            else:
-                metainfo = utils.decode_dict(metainfo_enc)
+            try:
+                if (b'info' in metainfo_enc and
+                    isinstance(metainfo_enc[b'info'], dict) and
+                    b'pieces' in metainfo_enc[b'info']):
+                    pieces = metainfo_enc[b'info'].pop(b'pieces')
+                    metainfo = utils.decode_dict(metainfo_enc)
+                    metainfo['info']['pieces'] = pieces
+                else:
+                    metainfo = utils.decode_dict(metainfo_enc)
+            except RecursionError:
+                # Lists/dictionaries are nested too deeply
+                raise error.BdecodeError()
 
             # "info" must be a dictionary.  If validation is not wanted, it's OK
             # if it doesn't exist because the "metainfo" property will add it
